@@ -116,7 +116,7 @@ example : (reach hasCF .timeout).any (fun s => s.pc == .returned .timeoutRes && 
 
 A policy that waits does so in a `select` that also watches the execution's context (FACTS `selects/…`). What it returns when
 the wait ends because the execution was cancelled is decided by a shape taken from the source on every run
-(`bulkheadWaitReportsCancelResult`, `limiterWaitReportsLastError`): the executor hands back the execution's cancel result,
+(`bulkheadWaitReportsCancelResult`, `limiterWaitReportsCancelResult`): the executor hands back the execution's cancel result,
 not the bare context error of the wait. (D12: the bulkhead executor used to return the bare error, so that an async `Cancel`
 during the permit wait of an outermost bulkhead was reported as `context.Canceled`.) -/
 section waits
@@ -142,10 +142,12 @@ theorem bulkhead_wait_reports_cause (refusal ctxErr : Err) (r : Run) :
   have h := cancelRes_is_cause r
   exact ⟨by simp [waitResult, Failsafe.Generated.Facts.bulkheadWaitReportsCancelResult], h.2.1, h.2.2.1, h.2.2.2.1⟩
 
-/-- the same for the rate limiter's wait inside an execution (it returns `exec.LastError()`, which `Cancel` stored) -/
+/-- the same for the rate limiter's wait inside an execution. (D15: it used to return `exec.LastError()`, which under a retry policy
+is the error recorded for an *earlier* attempt - a refused attempt followed by a cancelled wait produced a second, spurious
+`OnRateLimitExceeded`.) -/
 theorem limiter_wait_reports_cause (refusal ctxErr : Err) (r : Run) :
-    waitResult Failsafe.Generated.Facts.limiterWaitReportsLastError refusal ctxErr r .cancelled = some r.cancelRes := by
-  simp [waitResult, Failsafe.Generated.Facts.limiterWaitReportsLastError]
+    waitResult Failsafe.Generated.Facts.limiterWaitReportsCancelResult refusal ctxErr r .cancelled = some r.cancelRes := by
+  simp [waitResult, Failsafe.Generated.Facts.limiterWaitReportsCancelResult]
 
 /-- a refusal is reported as the refusal, and a granted wait goes on: the cancellation shape changes neither -/
 theorem wait_other_ends (reports : Bool) (refusal ctxErr : Err) (r : Run) :
